@@ -42,7 +42,8 @@ func (db *DB) Backup(path string) error {
 	dstFS := fs.Sub(db.opts.rootFS, path)
 
 	for _, seg := range segments {
-		name := segmentName(seg.id, seg.sequenceID)
+		// Use the file name the segment was opened with: segments written by older versions have no sequence ID in their name.
+		name := seg.name
 		mode := os.FileMode(0640)
 		srcFile, err := srcFS.OpenFile(name, os.O_RDONLY, mode)
 		if err != nil {
